@@ -174,6 +174,27 @@ class Gen:
             cls += '+centred'
         return A, B, cls
 
+    def collinear_catalogue(self, fr=None):
+        """bounded-exhaustive catalogue of 1-D objects on one oblique lattice line: every interval relation of
+        Line / HalfLine / Segment pairs (disjoint, touching end to end, back to back, overlapping, nested, equal,
+        same / opposite directions).  Returns a list of (A, B, cls)."""
+        fr = fr or self.frame()
+        o, d = fr['o'], fr['d']
+        pt = lambda t: add(o, mul(F(t), d))
+        objs = [('L', pt(0), d), ('L', pt(1), mul(F(-2), d))]
+        for t in (0, 1, 2):
+            objs.append(('H', pt(t), d))
+            objs.append(('H', pt(t), mul(F(-1, 2), d)))
+        for a, b in ((0, 1), (1, 2), (0, 2), (1, 3), (2, 3), (0, 3), (2, 1)):
+            objs.append(('S', pt(a), pt(b)))
+        objs.append(('P', pt(1)))
+        objs.append(('P', pt(5)))
+        out = []
+        for A in objs:
+            for B in objs:
+                out.append((A, B, 'catalogue-collinear'))
+        return out
+
     def centre(self, A, B):
         """translate both operands so that the origin is the midpoint of their base points (origin-symmetric
         configurations: mirror-image parallel planes, offsets d and -d, ...); keeps denominators <= 4 when possible"""
